@@ -289,6 +289,9 @@ func (fv *FuncVerifier) havocLoop(st *State, li *loopInfo) {
 		var hint string
 		if a, ok := c.(*ssa.Alloc); ok {
 			hint = a.Comment
+			if h, ok := fv.localHints[a]; ok {
+				hint = h
+			}
 		} else {
 			hint = c.Name()
 		}
